@@ -616,6 +616,11 @@ def run_unit(name, repo_root=None, want_canaries=True, timeout_ms=None):
         if thorough:
             need |= {n for n, r in seen.items() if r and r.get("kind") in ("post", "assert")}
         found = _concrete_search(udef, repo, dim_names, need, out, everything=bool(side_failed) or thorough)
+        left = set(canaries) - set(found)
+        if left:
+            # a canary that stays unrefuted makes the unit an error (vacuity guard): before that, once more with six times
+            # the wall-clock budgets (on a loaded machine the 5-10 s queries of the first pass time out)
+            found.update(_concrete_search(udef, repo, dim_names, left, out, everything=False, scale=6))
         if thorough:
             out["crosschecked"] = len(need)
             for n, rp in found.items():
@@ -680,14 +685,15 @@ def _distinct_inputs(ctx, limit=24):
     return ax
 
 
-def _concrete_search(udef, repo, dim_names, need, out, everything=False):
-    """Small concrete dimensions: quantifier-free instances give real counterexamples."""
+def _concrete_search(udef, repo, dim_names, need, out, everything=False, scale=1):
+    """Small concrete dimensions: quantifier-free instances give real counterexamples.
+    scale: multiplier of the (wall-clock) solver budgets - the retry for canaries that a loaded machine left open."""
     found = {}
     t_start = time.time()
     for dv in small_dim_assignments(udef, dim_names):
         if not need - set(found):
             break
-        if time.time() - t_start > 120:
+        if time.time() - t_start > 120 * scale:
             break
         old = ops.UNROLL_LIMIT
         ops.UNROLL_LIMIT = 64
@@ -710,9 +716,9 @@ def _concrete_search(udef, repo, dim_names, need, out, everything=False):
                     r = None
                     dist = _distinct_inputs(pr.ctx)
                     if dist:
-                        r = vc.solve(pr.ctx, ob, timeout_ms=5000, use_cvc5=False, extra_axioms=dist)
+                        r = vc.solve(pr.ctx, ob, timeout_ms=5000 * scale, use_cvc5=False, extra_axioms=dist)
                     if r is None or r.status != "refuted":
-                        r = vc.solve(pr.ctx, ob, timeout_ms=10000, use_cvc5=False)
+                        r = vc.solve(pr.ctx, ob, timeout_ms=10000 * scale, use_cvc5=False)
                 except Exception as e:
                     continue
                 if r.status == "refuted":
@@ -763,6 +769,16 @@ def sum_split_last(u, A, oA, Bt, oB):
     k = z3.Int(f"ksl_{next(u.ctx.fresh_ids)}")
     agree = z3.ForAll([k], z3.Implies(z3.And(k >= 0, k < nB), rA.body(oA, (k,)) == rB.body(oB, (k,))))
     u.ctx.assume(z3.Implies(z3.And(nA == nB + 1, nB >= 0, agree), rA.app(oA) == rB.app(oB) + rA.body(oA, (nB,))))
+
+
+def prefix_sum_step(u, red, outer, d):
+    """Instance of the definition of prefix sums (a `cumsum` reduction whose length is outer[d] + 1 and whose summands do not
+    depend on outer[d]): C(.., 0, ..) = x(.., 0, ..) and C(.., i, ..) = C(.., i - 1, ..) + x(.., i, ..) for i >= 1."""
+    outer = tuple(zint(i) for i in outer)
+    i = outer[d]
+    prev = outer[:d] + (i - 1,) + outer[d + 1:]
+    u.ctx.assume(z3.Implies(i == 0, red.app(outer) == red.body(outer, (zint(0),))))
+    u.ctx.assume(z3.Implies(i >= 1, red.app(outer) == red.app(prev) + red.body(outer, (i,))))
 
 
 def divmod_hint(u, r, q, M, t):
